@@ -30,7 +30,7 @@ STUBS = ["glue/, iter/: codebasin.Path and codebasin.source.Path -> façade with
 ASSUMPTIONS = ["gitignore pattern semantics (pathspec vs `git check-ignore`) are NOT checked: third-party regex code",
                "real directory walking (rglob) is replaced by a fixed listing in iter/; spelling/ uses the real file system untraced"]
 BOUNDS = {"quick": "glue/: all answer combinations for 2 directories and 8 extensions; iter/: 3 enumerated paths in all 6 enumeration orders; ext/: all 38 extensions of "
-                   "both lists plus 6 foreign ones; spelling/: 9 file spellings x 4 spellings of the code-base directory x 3 exclude lists",
+                   "both lists plus 6 foreign ones; spelling/: 9 file spellings x 4 spellings of the code-base directory x 5 exclude lists (incl. negated patterns in both orders)",
           "thorough": "same (exhausted)"}
 EXPLANATION = ("The environment's answers (exists, is_dir, containment per directory, pattern verdict) are symbolic bools; CrossHair exhausts "
                "them through the real __contains__/__iter__ and the result is compared with the conjunction the property states. Spelling "
@@ -94,10 +94,13 @@ def h_glue(ex: bool, isd: bool, e: int, r0: bool, r1: bool, m: bool) -> bool:
             ext = EXTS[k]
     state = dict(exists=ex, is_dir=isd, ext=ext, rel={DIRS[0]: r0, DIRS[1]: r1}, resolved=False)
     asked = []
+    handed = []
 
     class Spec:
         @staticmethod
         def from_lines(lines):
+            handed.append(list(lines))
+
             class S:
                 def match_file(self, rel):
                     asked.append(rel)
@@ -114,7 +117,9 @@ def h_glue(ex: bool, isd: bool, e: int, r0: bool, r1: bool, m: bool) -> bool:
         return False
     cb = codebasin.CodeBase.__new__(codebasin.CodeBase)
     cb._directories = [FP(d) for d in DIRS]
-    cb._excludes = ["*.gen.c"]
+    # gitignore rules are order-sensitive (the last matching pattern decides, `!` re-includes): the list must reach
+    # the matcher as the user gave it, duplicates and all
+    cb._excludes = ["*.gen.c", "!keep.gen.c", "zz/", "*.gen.c", "!aa.c"]
     saved = (codebasin.Path, codebasin.source.Path, codebasin.pathspec)
     codebasin.Path = FP
     codebasin.source.Path = FP
@@ -133,7 +138,7 @@ def h_glue(ex: bool, isd: bool, e: int, r0: bool, r1: bool, m: bool) -> bool:
     ok = bool(got) == bool(want)
     if ok and ex and (not isd) and recognised and under:
         first = DIRS[0] if r0 else DIRS[1]
-        ok = asked == [("REL", first)] and state["resolved"]
+        ok = asked == [("REL", first)] and state["resolved"] and handed == [["*.gen.c", "!keep.gen.c", "zz/", "*.gen.c", "!aa.c"]]
     if P.get("_replay"):
         LAST.update(exists=bool(ex), is_dir=bool(isd), ext=ext, under=[bool(r0), bool(r1)], matched=bool(m), got=bool(got),
                     expected=bool(want), asked=asked)
@@ -235,7 +240,8 @@ def h_ext(i: int) -> bool:
 
 SPELLINGS = ["{root}/src/a.c", "src/a.c", "./src/a.c", "src/../src/a.c", "src/sub/../a.c", "{root}/src/./a.c", "ldir/a.c", "lfile.c",
              "{root}/ldir/sub/../a.c"]
-EXCLUDES = [[], ["src/a.c"], ["*.c"]]
+EXCLUDES = [[], ["src/a.c"], ["*.c"], ["*.c", "!a.c"], ["!a.c", "*.c"]]
+A_IS_MEMBER = [True, False, False, True, False]  # (the last matching pattern decides)
 
 
 ROOT_SPELLINGS = ["{root}", "{root}/src/..", "{rootlink}", "{root}/ldir/.."]
@@ -243,7 +249,7 @@ ROOT_SPELLINGS = ["{root}", "{root}/src/..", "{rootlink}", "{root}/ldir/.."]
 
 def h_spelling(s: int, x: int, r: int) -> bool:
     """
-    pre: 0 <= s < 9 and 0 <= x < 3 and 0 <= r < 4
+    pre: 0 <= s < 9 and 0 <= x < 5 and 0 <= r < 4
     post: _
     """
     import shutil
@@ -256,7 +262,7 @@ def h_spelling(s: int, x: int, r: int) -> bool:
     for k in range(9):
         if s == k:
             si = k
-    for k in range(3):
+    for k in range(5):
         if x == k:
             xi = k
     STATS["compared"] += 1
@@ -291,7 +297,7 @@ def h_spelling(s: int, x: int, r: int) -> bool:
             got = sp in cb
             if got != canon:
                 why = "spelling %r -> %s, canonical -> %s" % (SPELLINGS[si], got, canon)
-            elif canon != (xi == 0):
+            elif canon != A_IS_MEMBER[xi]:
                 why = "exclude list %s: canonical membership %s" % (EXCLUDES[xi], canon)
             elif (d + "/lout.c") in cb or "lout.c" in cb:
                 why = "a link whose target is outside the code base is reported as a member"
